@@ -4,6 +4,8 @@ import SF.Props.C14
 import SF.Lemmas.Real
 import SF.Lemmas.Rsi
 import SF.Lemmas.MyRsi
+import SF.Lemmas.Bounds
+import SF.Lemmas.LagRsi
 import Mathlib.Data.List.Induction
 /-
   C07 — Bounded indicators stay inside their documented range (exact arithmetic).
@@ -280,3 +282,61 @@ theorem welfordRolling_view_nonneg (xs : List ℝ) (v : ℝ)
   rw [C13.welfordRolling_last] at h
   exact welfordRolling_nonneg xs v (by simpa using h)
 end SF.C07.Real
+
+/-! ### NET, CenterOfGravity, LaguerreRSI (any ordered field); BinaryEntropy, CTI, Vsct, Fisher transform (ℝ) -/
+namespace SF.C07
+open SF SF.Spec
+set_option linter.unusedSectionVars false
+section
+variable {α : Type} [Field α] [LinearOrder α] [IsStrictOrderedRing α] [FloatLike α] [ExactScalar α]
+
+/-- NoiseEliminationTechnology ∈ [−1, 1]: |Σ_{i<j} sgn(w_j − w_i)| ≤ n(n−1)/2 -/
+theorem net_range (N : Nat) (xs : List α) (v : α) (h : Spec.net N xs = some v) : -1 ≤ v ∧ v ≤ 1 :=
+  Bounds.net_range N xs v h
+theorem net_view_range (N : Nat) (hN : 0 < N) (xs : List α) (v : α)
+    (h : (netCore (α := α) N).outAfter xs = .ok (some v)) : -1 ≤ v ∧ v ≤ 1 := Bounds.net_view_range N hN xs v h
+
+/-- |CenterOfGravity| ≤ (N−1)/2 for positive inputs -/
+theorem cog_range (N : Nat) (hN : 0 < N) (xs : List α) (hpos : ∀ x ∈ xs, 0 < x) (v : α) (h : Spec.cog N xs = some v) :
+    -(((N : α) - 1) / 2) ≤ v ∧ v ≤ ((N : α) - 1) / 2 := Bounds.cog_range N hN xs hpos v h
+theorem cog_view_range (N : Nat) (hN : 0 < N) (xs : List α) (hpos : ∀ x ∈ xs, 0 < x) (v : α)
+    (h : (cogCore (α := α) N).outAfter xs = .ok (some v)) : -(((N : α) - 1) / 2) ≤ v ∧ v ≤ ((N : α) - 1) / 2 :=
+  Bounds.cog_view_range N hN xs hpos v h
+
+/-- LaguerreRSI ∈ [0, 1]: CU, CD ≥ 0 and the value is CU/(CU+CD) or a held earlier one -/
+theorem laguerreRsi_range (N : Nat) (xs : List α) (v : α) (h : Spec.laguerreRsi N xs = some v) : 0 ≤ v ∧ v ≤ 1 :=
+  LagRsi.range N xs v h
+theorem laguerreRsi_view_range (N : Nat) (xs : List α) (v : α)
+    (h : (lagRsiCore (α := α) N).outAfter xs = .ok (some v)) : 0 ≤ v ∧ v ≤ 1 := by
+  rw [LagRsi.outAfter_eq N xs] at h
+  exact LagRsi.range N xs v (by injection h)
+end
+
+/-- BinaryEntropy ∈ [0, 1] (ℝ): it is the binary entropy function, in bits, of a fraction in [0,1] -/
+theorem entropy_range (N : Nat) (xs : List ℝ) (v : ℝ) (h : Spec.entropy N xs = some v) : 0 ≤ v ∧ v ≤ 1 :=
+  Bounds.entropy_range N xs v h
+theorem entropy_view_range (N : Nat) (hN : 0 < N) (xs : List ℝ) (v : ℝ)
+    (h : (bentCore (α := ℝ) N).outAfter xs = .ok (some v)) : 0 ≤ v ∧ v ≤ 1 := Bounds.entropy_view_range N hN xs v h
+
+/-- CorrelationTrendIndicator ∈ [−1, 1] (ℝ): Cauchy–Schwarz for the centred sums; holds for the zero-padded warm-up
+windows too, since it is a fact about the Pearson formula of any list -/
+theorem pearson_range (w : List ℝ) : -1 ≤ pearsonIdx w ∧ pearsonIdx w ≤ 1 := Bounds.pearson_range w
+theorem cti_view_range (N : Nat) (hN : 0 < N) (xs : List ℝ) (hx : N ≤ xs.length) (v : ℝ)
+    (h : (ctiCore (α := ℝ) N).outAfter xs = .ok (some v)) : -1 ≤ v ∧ v ≤ 1 := Bounds.cti_view_range N hN xs hx v h
+
+/-- |Vsct| ≤ (N−1)/√N (ℝ): Samuelson's inequality n(x−m)² ≤ (n−1)Σ(xᵢ−m)², and (n−1)²/n is increasing in n -/
+theorem samuelson_sq {α : Type} [Field α] [LinearOrder α] [IsStrictOrderedRing α] (pre : List α) (x : α) :
+    let w := pre ++ [x]
+    (w.length : α) * ((x - mean w) * (x - mean w)) ≤ ((w.length : α) - 1) * sumL (w.map fun y => sq (y - mean w)) :=
+  Bounds.samuelson_sq pre x
+theorem vsct_abs_bound (N : Nat) (hN : 0 < N) (xs : List ℝ) (v : ℝ) (h : Spec.vsct N xs = some v) :
+    |v| ≤ ((N : ℝ) - 1) / Real.sqrt N := Bounds.vsct_abs_bound N hN xs v h
+theorem vsct_view_bound (N : Nat) (hN : 0 < N) (xs : List ℝ) (v : ℝ)
+    (h : (vsctCoreU (α := ℝ) N).outAfter xs = .ok (some v)) : |v| ≤ ((N : ℝ) - 1) / Real.sqrt N :=
+  Bounds.vsct_view_bound N hN xs v h
+
+/-- |EhlersFisherTransform| ≤ ln 199 (ℝ), for every history and every smoothing average: spec level (the batch
+re-evaluation that `./check C11` compares with the implementation exactly) -/
+theorem fisher_bound (N : Nat) (ma : List ℝ → Option ℝ) (xs : List ℝ) (v : ℝ) (h : Spec.fisher N ma xs = some v) :
+    |v| ≤ Real.log 199 := Bounds.fisher_bound N ma xs v h
+end SF.C07
